@@ -3,7 +3,9 @@
 #include "MutexFactory.h"
 static long vp_mf_store[8];
 MutexFactory* MutexFactory::i() { return (MutexFactory*)(void*)&vp_mf_store[0]; }
-Mutex* MutexFactory::getMutex() { return (Mutex*)0; }
+static long vp_mutex_store[4];
+// (non-NULL: SessionObject's constructor treats a NULL mutex as a failed construction)
+Mutex* MutexFactory::getMutex() { return (Mutex*)(void*)&vp_mutex_store[0]; }
 void MutexFactory::recycleMutex(Mutex*) {}
 MutexLocker::MutexLocker(Mutex* inMutex) { mutex = inMutex; }
 MutexLocker::~MutexLocker() {}
